@@ -291,6 +291,14 @@ def check(run, project):
         _c07.check(_RVm(run, "NI-1", "A5"), project)
     except AnalysisError as ex:
         run.info(f"A5: the mode tests could not be followed ({ex}); not judged here (C07 reports it)")
+    # A6 (= C04-V1): "nothing duplicated": the rejected field is not also among the emitted fields - in strict mode the value
+    # error is raised before any event of the offending field
+    from ..roles import MarshalRoles as _MR6
+    from . import c04 as _c04
+    try:
+        _c04.v1_v2(_RVm(run, "V1", "A6"), _MR6(project))
+    except AnalysisError as ex:
+        run.info(f"A6: the primitive walker could not be followed ({ex}); not judged here (C04 reports it)")
     a3(run, project)
     # A4: a byte is charged to every enclosing region *before* it is read (else an overrun is noticed only after bytes
     # beyond the region were consumed, and the skip-to-region-end then swallows bytes that belong to the remainder)
